@@ -407,6 +407,14 @@ fn class_archive(f: &Value, alg: u32, b: &Built) -> Vec<u8> {
         1 => Params { filter_bits: 5, min: 20, max: 600, window: 16, hash_len: b.hl as u32, algorithm: 1 },
         _ => Params { filter_bits: 0, min: 0, max: 64, window: 0, hash_len: b.hl as u32, algorithm: 2 },
     };
+    // metadata keys: strings chosen by whoever wrote the dictionary
+    match cls("meta").as_str() {
+        "longkey" => dict.metadata = vec![("k".repeat(100), b"v".to_vec())],
+        // 81 and 66 bytes of UTF-8 in which byte 64 (and most other byte offsets) falls inside a character
+        "longkey_utf8" => dict.metadata = vec![(format!("v{}", "\u{e9}".repeat(40)), b"1".to_vec()), ("\u{20ac}".repeat(22), b"2".to_vec()), ("\u{1F600}".repeat(20), vec![])],
+        "manykeys" => dict.metadata = (0..300).map(|i| (format!("key-{:04}-{}", i, "\u{e4}".repeat(i % 7)), vec![i as u8; i % 5])).collect(),
+        _ => {}
+    }
     match cls("window").as_str() { "zero" => p.window = 0, "gt_max" => p.window = p.max + 5, _ => {} }
     match cls("bits").as_str() { "zero" => p.filter_bits = 0, "gt32" => p.filter_bits = 33, "b31" => p.filter_bits = 31, "b32" => p.filter_bits = 32, _ => {} }
     match cls("minmax").as_str() { "min_gt_max" => { p.min = p.max + 7 } "max_zero" => { p.max = 0; p.min = 0; if alg != 2 { p.window = 0 } } _ => {} }
@@ -627,10 +635,21 @@ pub fn main(args: &[String]) {
                     }
                 }
                 alts.push(("trailing".into(), b.archive.len() as i64, [b.archive.clone(), vec![0x5Au8; 33]].concat()));
+                // two alterations at once, each of which is detected alone: a bit of the header flipped AND the file cut inside the trailing header
+                // checksum (at its first byte, one byte in, half way, one byte short) - the bytes that would give the first one away are missing
+                let ck = d.header_len as usize - 64;
+                for bit in ((14 * 8)..(ck * 8)).step_by(step.max(1) * 5 + 2) {
+                    for cut in [0usize, 1, 32, 63] {
+                        let mut a = b.archive.clone();
+                        a[bit / 8] ^= 1 << (bit % 8);
+                        a.truncate(ck + cut);
+                        alts.push(("flip+trunc".into(), bit as i64, a));
+                    }
+                }
                 for (ai, (akind, pos, a)) in alts.into_iter().enumerate() {
                     unit_counter += 1;
                     if unit_counter % shards != shard { continue; }
-                    let (region, chunk) = if akind == "trailing" { ("trailing".to_string(), -1) } else { region_of(&d, &b, if akind == "flip" { pos as usize / 8 } else { pos as usize }) };
+                    let (region, chunk) = if akind == "trailing" { ("trailing".to_string(), -1) } else { region_of(&d, &b, if akind == "flip" || akind == "flip+trunc" { pos as usize / 8 } else { pos as usize }) };
                     // is the touched stored chunk still needed after seeding?
                     let needed = if chunk > 0 { !seed_ids.contains(&b.arch[chunk as usize - 1].0) } else { true };
                     ncase += 1;
